@@ -1075,7 +1075,7 @@ class _NameSanitizer(_NameIndexer):
         return self.val_map[item]
 
     def is_valid_str(self, string):
-        return self.identifier.match(string) and self.extra_checks(string)
+        return self.identifier.fullmatch(string) and self.extra_checks(string)
 
     def make_valid_string(self, string=''):
         """ Inputting a value for the first time. """
